@@ -4,6 +4,14 @@ E2 part: a PrefetchedCourierServer is built on the transport stand-in but never
 started; its bound handlers (_init_iterator, _next_batch, _stop_prefetch,
 _request_shutdown) are invoked directly from controlled request threads while
 the (shimmed) prefetch thread runs under the deterministic scheduler.
+
+Scenario r2.kind == 'shutdown_supervised': the server's own supervising entry
+point runs as a controlled thread too - entry 'start' (server.start(), which
+runs run_until_shutdown() in a thread of its own) or entry 'direct' (the public
+blocking run_until_shutdown() called directly).  After the second requester asked
+for the shutdown and the entry point has RETURNED, the state is read: prefetch
+thread alive, transport server still started, shutdown callback invoked, and -
+if the transport server is still started - one more next-batch request.
 """
 
 from __future__ import annotations
@@ -131,7 +139,22 @@ def run_prefetch_case(case, watchdog_s=20.0):
           getattr(q, '_stop_requested', False) or q.exception is not None or q.exhausted)
 
     _GATES[gate_key] = gate_open
+  supervised = r2_kind == 'shutdown_supervised'
+  if supervised:
+    # Observation only: is the shutdown callback (= _stop_prefetch) ever invoked?
+    state['callback_calls'] = 0
+    orig_callback = server._shutdown_callback  # pylint: disable=protected-access
+
+    def counted_callback(*a, **k):
+      state['callback_calls'] += 1
+      return orig_callback(*a, **k)
+
+    server._shutdown_callback = counted_callback  # pylint: disable=protected-access
   used = {}   # requester -> queue its current request dequeues from
+
+  def transport_up():
+    srv = server._server  # pylint: disable=protected-access
+    return srv is not None and srv.has_started
 
   def on_get_batch(q):
     st = core.ACTIVE.me() if core.ACTIVE is not None else None
@@ -156,6 +179,8 @@ def run_prefetch_case(case, watchdog_s=20.0):
     if who == 'R1':
       state['r1_requests'] += 1
       state['r1_in_request'] = True
+    # (a request can only reach the handler while the transport server is started)
+    issued_after_shutdown_returned = bool(state.get('sup_returned')) and transport_up()
     raw = server._next_batch(batch)  # pylint: disable=protected-access
     # No yield point between the handler's return and these observations.
     q = used.get(who)
@@ -165,6 +190,8 @@ def run_prefetch_case(case, watchdog_s=20.0):
     items = []
     marker = None
     meta = {'replaced': bool(q is not None and server._generator is not q)}  # pylint: disable=protected-access
+    if issued_after_shutdown_returned:
+      meta['issued_after_shutdown_returned'] = True
     for x in out:
       if isinstance(x, StopIteration):
         items.append(('END', x.value))
@@ -193,8 +220,22 @@ def run_prefetch_case(case, watchdog_s=20.0):
     log.append(('no_marker', who))
     return None
 
+  def supervisor():
+    # The server's own entry point; returns once the shutdown was carried out.
+    try:
+      if case['r2']['entry'] == 'direct':
+        server.run_until_shutdown()
+      else:
+        server.start().join()
+    finally:
+      state['sup_returned'] = True
+      log.append(('supervisor_returned', case['r2']['entry']))
+
   def r1():
     try:
+      if supervised:
+        # a client can only talk to a server whose transport is up
+        core.ACTIVE.block(lambda: transport_up() or state.get('sup_returned'), 'r1.wait-server')
       do_init('R1', 0)
       state['g0_queue'] = server._generator  # pylint: disable=protected-access
       marker = None
@@ -243,6 +284,36 @@ def run_prefetch_case(case, watchdog_s=20.0):
     elif act['kind'] == 'stop_prefetch':
       server._stop_prefetch()  # pylint: disable=protected-access
       log.append(('r2_done',))
+    elif act['kind'] == 'shutdown_supervised':
+      previous = server._generator  # "the previous one"  # pylint: disable=protected-access
+      info['unfinished_at_shutdown_request'] = bool(
+          previous is not None and not previous.exhausted)
+      server._request_shutdown()  # pylint: disable=protected-access
+      s.block(lambda: state.get('sup_returned'), 'r2.wait-shutdown-returned')
+      # -- the entry point has returned: read the state it left behind ---------
+      th, gen = server._enqueue_thread, server._generator  # pylint: disable=protected-access
+      after = {'entry': act['entry'],
+               'prefetch_thread_alive': bool(th is not None and th.is_alive()),
+               'generator_exhausted': None if gen is None else bool(gen.exhausted),
+               'generator_stopped': None if gen is None else bool(
+                   getattr(gen, '_stop_requested', False) or gen.exception is not None),
+               'transport_still_started': bool(transport_up()),
+               'shutdown_callback_calls': state['callback_calls'],
+               # False: an initialisation that was in flight when the shutdown was
+               # requested installed this generator afterwards (observed, not judged)
+               'generator_installed_before_the_shutdown_request': bool(
+                   gen is not None and gen is previous)}
+      log.append(('after_shutdown', after))
+      if (gen is not None and gen is not previous and after['prefetch_thread_alive']
+          and not after['generator_stopped'] and after['generator_exhausted'] is False):
+        info.setdefault('observations', []).append(
+            'init_in_flight_at_shutdown_installed_a_generator_that_keeps_running')
+      if after['transport_still_started']:
+        # the transport would still route this request to the handler
+        request('R2')
+      r = server._init_iterator(lazy_gen(1))  # pylint: disable=protected-access
+      log.append(('init_after_shutdown', None if r is None else type(r).__name__))
+      log.append(('r2_done',))
     elif act['kind'] == 'shutdown':
       server._request_shutdown()  # pylint: disable=protected-access
       # _shutdown_server() runs the shutdown callback (= _stop_prefetch)
@@ -260,6 +331,8 @@ def run_prefetch_case(case, watchdog_s=20.0):
     server._stop_prefetch()  # pylint: disable=protected-access
     log.append(('finalised',))
 
+  if supervised:
+    sched.spawn(supervisor, name='S')
   sched.spawn(r1, name='R1')
   if case.get('r2'):
     state['r2_done'] = False
@@ -271,6 +344,11 @@ def run_prefetch_case(case, watchdog_s=20.0):
     _HOOKS.pop('get_batch', None)
     if gate_key is not None:
       _GATES.pop(gate_key, None)
+    if supervised and server._server is not None:  # pylint: disable=protected-access
+      try:
+        server._server.Stop()  # pylint: disable=protected-access
+      except Exception:  # pylint: disable=broad-exception-caught
+        pass
   info['in_flight_at_reinit'] = state['in_flight_at_reinit']
   return sched, log, info
 
@@ -380,7 +458,26 @@ def analyse(case, sched, log, info):
     else:
       if len(markers) != 1 or markers[0][0] != 'EXC' or markers[0][1] != 'GenError':
         out.append(('failure_marker', {'markers': markers}))
-  if case.get('r2') and case['r2']['kind'] == 'shutdown':
+  if case.get('r2') and case['r2']['kind'] == 'shutdown_supervised':
+    # "shutting down stops the previous one": judged from the state the entry point
+    # left behind when it returned, and from requests issued after it returned.
+    after = next((e[1] for e in log if e[0] == 'after_shutdown'), None)
+    if after is None:
+      out.append(('shutdown_did_not_return', log[-3:]))
+    else:
+      # (a thread that merely has not been scheduled to end after its generator was
+      # consumed or stopped is not "running the generator")
+      if (after['prefetch_thread_alive'] and after['generator_exhausted'] is False
+          and not after['generator_stopped']
+          and after['generator_installed_before_the_shutdown_request']):
+        out.append(('prefetch_running_after_shutdown_returned', dict(after)))
+      served = [{'who': e[1], 'batch': e[2]} for e in batch_events
+                if (e[3] if len(e) > 3 else {}).get('issued_after_shutdown_returned')
+                and any(x[0] not in ('END', 'EXC') for x in e[2])]
+      if served:
+        out.append(('elements_served_after_shutdown_returned',
+                    dict(after, requests_issued_after_the_return=served[:3])))
+  if case.get('r2') and case['r2']['kind'] in ('shutdown', 'shutdown_supervised'):
     e = [x for x in log if x[0] == 'init_after_shutdown']
     if e and e[0][1] != 'TimeoutError':
       out.append(('init_after_shutdown_not_refused', e[0]))
